@@ -175,6 +175,7 @@ func DefStandardClass(s *slip.Scope, name string, supers, slotSpecs, classOption
 
 	makeClassesReady(slip.CurrentPackage)
 	classChanged(&sc, slip.CurrentPackage)
+	slip.ClassesChanged()
 
 	return &sc
 }
